@@ -121,3 +121,31 @@ Theorem C08_eighU_refines (K : fieldType) (n : nat) (A : seq (mx K)) (Q0 L0 H : 
   = eighM [seq mx_of n n a | a <- A] (mx_of n n Q0) (mx_of n n L0) (mx_of n n H).
 Proof. exact: eighU_refines. Qed.
 Print Assumptions C08_eighU_refines.
+
+(* ---- FULL QR decomposition (Q m x m orthogonal, R m x n upper trapezoidal, n <= m; algorithms.py _qr_full, the kernel shared by
+   qr_full and svd): Q R = A, Q^T Q = I, R upper trapezoidal modulo t^D for every m, n, D; the executable kernel refines it. *)
+From AlgoV Require Import QRFull QRFullSpec LiftQ.
+Theorem C08_qrfM_spec (K : fieldType) (m n : nat) : (2%:R : K) != 0 -> forall le_nm : (n <= m)%N,
+  forall (A : seq 'M[K]_(m, n)) (Q0 : 'M[K]_m) (R0 : 'M[K]_(m, n)) (Rinv : 'M[K]_n),
+  Q0^T *m Q0 = 1%:M -> is_uptrap R0 -> Q0 *m R0 = A`_0 -> topM le_nm R0 *m Rinv = 1%:M ->
+  let QR := qrfM A Q0 R0 Rinv in
+  forall d, (d < size A)%N ->
+  \sum_(c < d.+1) (nth (0, 0) QR c).1 *m (nth (0, 0) QR (d - c)).2 = A`_d /\
+  \sum_(c < d.+1) ((nth (0, 0) QR c).1)^T *m (nth (0, 0) QR (d - c)).1 = (d == 0%N)%:R%:M /\
+  is_uptrap (nth (0, 0) QR d).2.
+Proof. move=> c2 le_nm A Q0 R0 Rinv; exact: (qrfM_spec c2). Qed.
+Print Assumptions C08_qrfM_spec.
+Theorem C08_qrfU_refines (K : fieldType) (m n : nat) (A : seq (mx K)) (Q0 R0 Rinv : mx K) :
+  [seq mofq m n p | p <- qrfU m n A Q0 R0 Rinv]
+  = qrfM [seq mx_of m n a | a <- A] (mx_of m m Q0) (mx_of m n R0) (mx_of n n Rinv).
+Proof. exact: qrfU_refines. Qed.
+Print Assumptions C08_qrfU_refines.
+(* the re-orthonormalisation helper lift_Q of _eigh (repeated eigenvalues): coefficients d..D-1 computed from 0..d-1 keep
+   sum_{i+j=k} Q_i^T Q_j = delta_k I for every k < D, and the given coefficients are kept *)
+Theorem C08_liftQ_spec (K : fieldType) (n : nat) : (2%:R : K) != 0 -> forall (Q : seq 'M[K]_n) (D : nat),
+  (0 < size Q)%N ->
+  (forall k, (k < size Q)%N -> \sum_(c < k.+1) (Q`_c)^T *m Q`_(k - c) = (k == 0%N)%:R%:M) ->
+  (forall k, (k < D)%N -> \sum_(c < k.+1) ((liftQM Q D)`_c)^T *m (liftQM Q D)`_(k - c) = (k == 0%N)%:R%:M)
+  /\ take (size Q) (liftQM Q D) = Q /\ size (liftQM Q D) = maxn (size Q) D.
+Proof. move=> c2 Q D; exact: (liftQ_spec c2). Qed.
+Print Assumptions C08_liftQ_spec.
